@@ -262,6 +262,31 @@ def jseq(t, n):
     raise ValueError(k)
 
 
+def model_line_g(t, flags, after, lim, fuel=20000):
+    """guard pass: `gtree <guard tested after refusals 0/1> <limit relative to the root> …`"""
+    fl, sig, v0 = root_of(flags)
+    a, m, r, _ = SIGS[sig]
+    return "gtree %d %d %s %d %d %d %d %s %s" % (1 if after else 0, lim, fl or '-', fuel, a, m, r, v0, " ".join(toks(t, [])))
+
+
+def janet_tree_g(idx, t, flags, lim):
+    f, sig, v0 = root_of(flags)
+    return "(run-tree-g %d %d (fn %s %s) %s %s)" % (idx, lim, jparams(sig, 0), " ".join(jseq(t, nparams(sig))), fl(f), ja(v0))
+
+
+def model_line_s(t, flags, acts, fuel=20000):
+    """task pass: acts = [('c'|'r', atom)] dispatches of the event loop after the first run"""
+    fl, sig, v0 = root_of(flags)
+    a, m, r, _ = SIGS[sig]
+    return "stree %s %d %d %d %d %s %s %s" % (fl or '-', fuel, a, m, r, v0, ",".join("%s:%s" % x for x in acts) or "-", " ".join(toks(t, [])))
+
+
+def janet_tree_s(idx, t, flags, acts):
+    f, sig, v0 = root_of(flags)
+    return "(run-tree-s %d [%s] (fn %s %s) %s %s)" % (idx, " ".join("[:%s %s]" % (k, ja(v)) for k, v in acts), jparams(sig, 0),
+                                                       " ".join(jseq(t, nparams(sig))), fl(f), ja(v0))
+
+
 def janet_tree(idx, t, flags):
     f, sig, v0 = root_of(flags)
     return "(run-tree %d (fn %s %s) %s %s)" % (idx, jparams(sig, 0), " ".join(jseq(t, nparams(sig))), fl(f), ja(v0))
